@@ -1969,15 +1969,21 @@ def real_yields(prog, f):
     return out
 
 
-def scalar_leaves(prog, f, operand, depth=4, out=None, sites=None):
+def scalar_leaves(prog, f, operand, depth=4, out=None, sites=None, _seen=None):
     """fields / constants / opaque calls a scalar expression is computed from (through arithmetic, comparisons, in-crate helpers)"""
     if out is None:
         out = set()
+    if _seen is None:
+        _seen = set()
     for o in origins(f, operand, stop_fields=True):
         if o.kind in ('binop', 'unop'):
+            k = (f.id, o.kind, o.bb, id(o.data))
+            if k in _seen:
+                continue    # loop-carried value (`x = x + 1`)
+            _seen.add(k)
             for side in ('a', 'b', 'o'):
                 if side in o.data:
-                    scalar_leaves(prog, f, o.data[side], depth, out, sites)
+                    scalar_leaves(prog, f, o.data[side], depth, out, sites, _seen)
         elif o.kind == 'field':
             out.add(('field', o.data[1]))
         elif o.kind == 'const':
@@ -1985,18 +1991,22 @@ def scalar_leaves(prog, f, operand, depth=4, out=None, sites=None):
             out.add(('const', k.get('int') if isinstance(k, dict) and 'int' in k else str(k)[:30]))
         elif o.kind == 'call':
             c = o.data
+            k = (f.id, 'call', c.bb, depth)
+            if k in _seen:
+                continue    # loop-carried value (`buf = read(buf)`)
+            _seen.add(k)
             tg = [t for t in prog.resolve(c) if t in prog.fns]
             if tg and depth > 0:
                 for t in tg:
                     g = prog.body_of(t) or prog.fns[t]
-                    decision_leaves(prog, g, depth - 1, out, sites)
+                    decision_leaves(prog, g, depth - 1, out, sites, _seen)
                 for a in c.args:
-                    scalar_leaves(prog, f, a, depth, out, sites)
+                    scalar_leaves(prog, f, a, depth, out, sites, _seen)
             elif c.name in ('saturating_sub', 'checked_sub', 'wrapping_sub', 'unwrap_or', 'unwrap_or_default', 'min', 'max', 'cmp', 'ge', 'le', 'gt', 'lt', 'eq', 'ne', 'is_ge', 'is_le', 'is_gt', 'is_lt', 'is_eq'):
                 if sites is not None:
                     sites.append((c.name, f.id, c.bb))
                 for a in c.args:
-                    scalar_leaves(prog, f, a, depth, out, sites)
+                    scalar_leaves(prog, f, a, depth, out, sites, _seen)
             else:
                 out.add(('call', c.name))
                 if sites is not None:
@@ -2012,12 +2022,17 @@ def scalar_leaves(prog, f, operand, depth=4, out=None, sites=None):
     return out
 
 
-def decision_leaves(prog, f, depth=4, out=None, sites=None):
+def decision_leaves(prog, f, depth=4, out=None, sites=None, _seen=None):
     """leaves of everything a small pure function's result depends on: the data that flows into the return value and the
     operands of every branch in its body (`a && b` is control flow in MIR)"""
     if out is None:
         out = set()
-    scalar_leaves(prog, f, 0, depth, out, sites)
+    if _seen is None:
+        _seen = set()
+    if ('fn', f.id, depth) in _seen:
+        return out
+    _seen.add(('fn', f.id, depth))
+    scalar_leaves(prog, f, 0, depth, out, sites, _seen)
     aw = {a.switch_bb for a in f.awaits()} if f.is_coroutine else set()
     for i in f.reachable():
         t = f.blocks[i]['t']
@@ -2025,7 +2040,7 @@ def decision_leaves(prog, f, depth=4, out=None, sites=None):
             ogs = origins(f, t['o'])
             if ogs and all(o.kind == 'call' and o.data.from_expansion for o in ogs):
                 continue    # branches of log / format macros
-            scalar_leaves(prog, f, t['o'], depth, out, sites)
+            scalar_leaves(prog, f, t['o'], depth, out, sites, _seen)
     return out
 
 
